@@ -7,7 +7,7 @@ CONSTANTS
   MaxText = 1
   Shapes = {1, 2, 5, 22}
   ConvIds = {1, 4, 12}
-  Binds = {91, 102, 113, 121, 132, 143, 93, 112, 101, 123}
+  Binds = {91, 102, 113, 121, 132, 143}
 INIT Init
 NEXT Next
 INVARIANT ExportCase
